@@ -7,7 +7,7 @@
     in Server/GraphProofs.v for every store satisfying the node-table invariant and every root list. *)
 From Coq Require Import NArith List Bool.
 From Coq Require Import Sorted.
-From ADF Require Import Spec.Spec Bdd.Store Bdd.WF Front.Parser Server.Model Server.Isolation Server.Graph Server.GraphProofs.
+From ADF Require Import Spec.Spec Bdd.Store Bdd.WF Front.Parser Server.Model Server.Isolation Server.Graph Server.GraphProofs Gen.GenDispatch Gen.TieDispatch.
 Import ListNotations.
 Local Open Scope N_scope.
 
@@ -130,3 +130,22 @@ Theorem C16_graph_evaluates : forall st ac, WFN st -> Forall (fun h => h < size 
     (lookup t (g_labels g) = Some LBot <-> den st (nth i ac 0) a = false).
 Proof. exact graph_evaluates. Qed.
 Print Assumptions C16_graph_evaluates.
+
+From Coq Require String.
+Import String.
+(** the source tests, runs and stores one and the same strategy, and builds natively / through biodivine as
+    the parsing strategy says (tables REGENERATED from server/src/adf.rs, Gen/GenDispatch.v) *)
+Theorem C16_source_strategy_dispatch :
+  g_strategies =
+  [("Complete", "complete", "complete", "complete");
+   ("Ground", "ground", "grounded", "ground");
+   ("Stable", "stable", "stable", "stable");
+   ("StableCountingA", "stable_counting_a", "stable_count_optimisation_heu_a", "stable_counting_a");
+   ("StableCountingB", "stable_counting_b", "stable_count_optimisation_heu_b", "stable_counting_b");
+   ("StableNogood", "stable_nogood", "stable_nogood(default)", "stable_nogood")]%string.
+Proof. exact strategy_dispatch_matches_source. Qed.
+Print Assumptions C16_source_strategy_dispatch.
+Theorem C16_source_parsing_dispatch :
+  g_parsings = [("Hybrid", "biodivine+hybrid_step_opt(false)"); ("Naive", "native")]%string.
+Proof. exact parsing_dispatch_matches_source. Qed.
+Print Assumptions C16_source_parsing_dispatch.
